@@ -170,6 +170,8 @@ def _run_case(idx, c):
         f = flavour(4, "tls13", ccred=CLT_CRED[kt if kt != "-" else "rsa"])
     elif site == "fin":
         f = flavour(ver, "tls13" if ver == 4 else ("ecdhe_rsa" if ver > 0 else "rsa"))
+    elif site == "srp" and cls == "absent":
+        f = flavour(ver, "ecdhe_rsa")
     elif site == "srp":
         f = flavour(ver, "srp_sha")
     elif site == "binder":
@@ -322,6 +324,11 @@ def _run_case(idx, c):
         ht = getattr(msg, "handshakeType", None)
         if msg.contentType != ContentType.handshake:
             return
+        if site == "srp" and cls == "absent" and ht == HandshakeType.client_hello:
+            from tlslite.extensions import SRPExtension
+            msg.extensions.insert(0, SRPExtension().create(bytearray(b"alice")))
+            state["hit"] += 1
+            return
         if site == "binder" and cls == "wrongsecret" and ht == HandshakeType.client_hello:
             from tlslite.constants import ExtensionType
             ext = msg.getExtension(ExtensionType.pre_shared_key)
@@ -420,6 +427,9 @@ def _run_case(idx, c):
     if site in ("phacv", "phafin"):
         recorded = bool(p.s.session is not None and p.s.session.clientCertChain is not None
                         and p.s.session.clientCertChain is not chain_before)
+    elif site == "srp" and cls == "absent":
+        completed = bool(so.ok)
+        recorded = bool(sess is not None and sess.srpUsername)
     elif site == "srp":
         recorded = bool(completed and sess is not None and sess.srpUsername)
     elif site == "binder" and cls == "stale":
